@@ -15,6 +15,7 @@ from zope.interface import Interface, ro, implementedBy, classImplements
 from zope.interface.interface import InterfaceClass
 
 from .. import gen
+from .common import wmod, newworld
 
 logging.disable(logging.CRITICAL)
 
@@ -93,6 +94,7 @@ def check_ro_functions(spec, names, exp, me, bases):
 def eval_dag(dag):
     """Build the DAG as interfaces and check every node. Returns
     (violation or None, number of nodes without C3)."""
+    newworld()
     n = len(dag)
     bases = {i: list(bs) or ['R'] for i, bs in enumerate(dag)}
     bases['R'] = []
@@ -111,7 +113,7 @@ def eval_dag(dag):
     for i, bs in enumerate(dag):
         try:
             x = InterfaceClass('N%d' % i, tuple(I[b] for b in bs) or (Interface,),
-                               {'__module__': 'w'})
+                               {'__module__': wmod()})
         except ro.InconsistentResolutionOrderError:
             if MODE == 'strict' and exps[i] is None:
                 return None, incons + 1      # correct refusal; the DAG ends here
@@ -186,15 +188,16 @@ def eval_classes(item):
     """item = (class dag, per-class declared interface names tuple).
     Specification graph mixes Implements and interfaces."""
     dag, decls = item
+    newworld()
     J = {}
     names = {id(Interface): 'R'}
     for jn, bs in J_BASES.items():
-        J[jn] = InterfaceClass(jn, tuple(J[b] for b in bs) or (Interface,), {'__module__': 'w'})
+        J[jn] = InterfaceClass(jn, tuple(J[b] for b in bs) or (Interface,), {'__module__': wmod()})
         names[id(J[jn])] = jn
     K = []
     for i, bs in enumerate(dag):
         try:
-            K.append(type('K%d' % i, tuple(K[b] for b in bs) or (object,), {'__module__': 'w'}))
+            K.append(type('K%d' % i, tuple(K[b] for b in bs) or (object,), {'__module__': wmod()}))
         except TypeError:
             return None, 0            # CPython refuses this hierarchy
     # declare in reverse definition order too (late declaration on a base)
